@@ -1,10 +1,11 @@
 (* C06 - property theorems (statements only; proofs live in theories/Dist*.v).
    P bundles every parameter of the cluster model: the per-block computation (p_upd, p_apply), the communication
    dtype rounding p_cast, world size, group size, number of blocks, the block->rank assignment p_owner (ANY function
-   into the group), and the two switches: the code as it is has p_global_skip = false (defect F6, known finding) and, since the repair of
-   defect F7, p_eager_meshes = true. *)
+   into the group), and the two switches: the code as it is has p_global_skip = true (since the repair of defect F6) and p_eager_meshes = true
+   (since the repair of defect F7).  The theorems are stated for both values of p_global_skip: the general form carries
+   the hypothesis  p_global_skip P = true \/ no_starvation P h ; the *_every_history form is the code as it is. *)
 From Coq Require Import List ZArith Bool Arith.
-From Shampoo Require Import Dist DistProofs DistSchedProofs DistWitness DistChecker.
+From Shampoo Require Import Dist DistProofs DistSchedProofs DistRepaired DistWitness DistChecker.
 Import ListNotations.
 
 (* With any communication dtype every rank equals the single-process optimizer whose per-step communicated quantity
@@ -100,7 +101,54 @@ Theorem C06_ctor_logs_equal :
 Proof. exact @creation_logs_equal_guarded. Qed.
 Print Assumptions C06_ctor_logs_equal.
 
-(* REFUTED CLAUSE (defect F6, known finding C06:rank-starvation): on the code as it is (p_global_skip = false), a history in which all blocks owned by one rank lack a
+(* ---- the code as it is (skip rule repaired: p_global_skip = true): EVERY history, starving ones included ------------ *)
+Theorem C06_ddp_lowprec_eq_rounded_serial_every_history :
+  forall (bstate value grad : Type) (P : params bstate value grad) (h : history grad) v0 st0 b0,
+    wf_config P -> p_global_skip P = true ->
+    exists c, ddp_run P h (init_cluster P v0 st0 b0) = Some c /\
+      forall r, r < p_world P ->
+        vals (cget c r) = svals (serial_run P (p_cast P) h (mkS v0 st0 0%Z)) /\
+        stepc (cget c r) = sstepc (serial_run P (p_cast P) h (mkS v0 st0 0%Z)) /\
+        forall b, b < p_nb P -> owns P r b = true ->
+          nth b (sts (cget c r)) (p_ds P) = nth b (ssts (serial_run P (p_cast P) h (mkS v0 st0 0%Z))) (p_ds P).
+Proof. exact @ddp_lowprec_eq_rounded_serial_every_history. Qed.
+Print Assumptions C06_ddp_lowprec_eq_rounded_serial_every_history.
+
+Theorem C06_ddp_eq_serial_every_history :
+  forall (bstate value grad : Type) (P : params bstate value grad) (h : history grad) v0 st0 b0,
+    wf_config P -> p_global_skip P = true -> (forall v, p_cast P v = v) ->
+    exists c, ddp_run P h (init_cluster P v0 st0 b0) = Some c /\
+      forall r, r < p_world P -> vals (cget c r) = svals (serial_run P (fun v => v) h (mkS v0 st0 0%Z)).
+Proof. exact @ddp_eq_serial_every_history. Qed.
+Print Assumptions C06_ddp_eq_serial_every_history.
+
+Theorem C06_ddp_replicas_agree_every_history :
+  forall (bstate value grad : Type) (P : params bstate value grad) (h : history grad) v0 st0 b0 c,
+    wf_config P -> p_global_skip P = true -> ddp_run P h (init_cluster P v0 st0 b0) = Some c ->
+    forall r r', r < p_world P -> r' < p_world P ->
+      vals (cget c r) = vals (cget c r') /\ stepc (cget c r) = stepc (cget c r').
+Proof. exact @ddp_replicas_agree_every_history. Qed.
+Print Assumptions C06_ddp_replicas_agree_every_history.
+
+Theorem C06_collective_logs_equal_every_history :
+  forall (bstate value grad : Type) (P : params bstate value grad) (h : history grad) v0 st0 b0 c,
+    wf_config P -> p_global_skip P = true -> ddp_run P h (init_cluster P v0 st0 b0) = Some c ->
+    forall r r', r < p_world P -> r' < p_world P -> grp P r = grp P r' ->
+      gathers (log (cget c r)) = gathers (log (cget c r')).
+Proof. exact @collective_logs_equal_every_history. Qed.
+Print Assumptions C06_collective_logs_equal_every_history.
+
+Theorem C06_interleaving_irrelevant_every_history :
+  forall (bstate value grad : Type) (P : params bstate value grad) (h : history grad) (c0 : cluster bstate value),
+    wf_config P -> p_global_skip P = true ->
+    exists cf, ddp_run P h c0 = Some cf /\
+      forall c, sstar P (init_config P h c0) c -> terminal P c ->
+        finished P c /\ (forall r, r < p_world P -> pst (pget c r) = cget cf r) /\ ~ deadlocked P c.
+Proof. exact @interleaving_irrelevant_every_history. Qed.
+Print Assumptions C06_interleaving_irrelevant_every_history.
+
+(* Defect F6 (repaired in /repo), kept as a lemma about the pre-repair variant p_global_skip = false (this is why the
+   hypothesis of the *_every_history theorems cannot be dropped): a history in which all blocks owned by one rank lack a
    gradient at some step makes that rank skip the all-gather: in lock step its peer is left waiting, and with
    collectives matched in issue order a maximal schedule deadlocks with different collective sequences, parameters
    and step counters inside one group. *)
